@@ -7,8 +7,9 @@ false alarms, never hide a write -- within the stated trusted assumptions:
 
   T1  the summary tables below (numpy / scipy / sklearn / builtins callees, ndarray / list /
       dict / estimator-protocol methods, STUBS for inherited sklearn methods);
-  T2  subscript assignment `v[i] = e` into an object whose allocation the translator did
-      not see copies data (ndarray semantics) -- tracked list/dict literals keep references;
+  T2  subscript assignment `v[i] = e` into, and `.copy()` / `a + b` of, an object whose allocation
+      the translator did not see have ndarray semantics (data copied, no reference kept) --
+      tracked list/dict literals, comprehensions, *args/**kwargs and library objects keep references;
   T3  `copy=` flags of entry points are analysed at their default value (X_orthogonalizer
       at copy=True, as the property states), callable / estimator collaborators given as
       arguments (`metric`, `scaler`, `estimator`) at their default None: user code is outside
@@ -106,7 +107,12 @@ class TransformerMixin:
             return self.fit(X, y, **fit_params).transform(X)
 
 class SelectorMixin(TransformerMixin):
-    pass
+    def inverse_transform(self, X):
+        X = check_array(X)
+        support = self.get_support()
+        Xt = np.zeros((X.shape[0], len(support)))
+        Xt[:, support] = X
+        return Xt
 
 class _BasePCA(TransformerMixin):
     def transform(self, X):
@@ -377,8 +383,9 @@ M_VIEW = _names("reshape ravel transpose squeeze view swapaxes diagonal")
 M_FRESH = _names("""
  copy sum mean std var min max argmin argmax argsort astype dot flatten tolist cumsum prod any all
  nonzero round trace clip conj item repeat take searchsorted tobytes lower upper format join split strip
- startswith endswith index count get_n_splits get_params keys values items get __len__ isoformat
+ startswith endswith index count get_n_splits get_params __len__ isoformat
 """)
+M_CONT_READ = _names("get keys values items")
 M_WRITE = _names("sort fill resize put itemset partition setflags byteswap")
 M_CONT_ADD = _names("append extend insert add update setdefault")
 M_CONT_DEL = _names("remove clear pop popitem discard")
@@ -1040,7 +1047,7 @@ class InterpExpr(Interp):
                 if not self.u.known(v.obj + "." + name) and name in (M_EST_FIT | M_EST_READ | M_FRESH | {"_more_tags", "_get_tags", "get_feature_names_out"}):
                     return F([("libmethod", v, name)])
                 return self.load_attr(v, name, node)
-            if name in M_CONT_ADD | M_CONT_DEL | M_FRESH | {"copy"}:
+            if name in M_CONT_ADD | M_CONT_DEL | M_CONT_READ | M_FRESH | {"copy"}:
                 return F([("libmethod", v, name)])
             return self.load_attr(v, name, node)
         if isinstance(v, R):
@@ -1575,6 +1582,8 @@ class InterpCall(InterpExpr):
         if name in M_CONT_DEL:
             self.write(recv, node, "container method " + name)
             return self.elem_of(recv)
+        if name in M_CONT_READ:
+            return self.derived([recv] + ca.pos[1:2], name)
         if name in M_VIEW:
             return self.derived([recv], name, may=False)
         if name == "astype":
